@@ -1,7 +1,8 @@
 // Package c17: channels, mutexes and synchronized objects under concurrency.
 //
 // prog.go: the program language shared by the Coq model (coq/C17/Model.v) and the harness, its rendering
-// as a slip program (one textually distinct form per routine) and as a Gallina term.
+// as a slip program (one form per routine, or - Cold - one never-called function per kind of routine) and as a
+// Gallina term.
 package c17
 
 import (
@@ -33,12 +34,15 @@ type Prog struct {
 	Caps   []int    `json:"caps"`
 	NMutex int      `json:"nmutex"`
 	Mem    []int64  `json:"mem"`
-	Cells  []string `json:"cells"` // how cell x is realised: global | clos | flavor | hash (hash: only under one mutex)
+	Cells  []string `json:"cells"` // how cell x is realised: global | clos | flavor | let | hash (hash: only under one mutex)
 	Code   [][]Op   `json:"code"`
 	Shape  string   `json:"shape"`
 	Yield  int      `json:"yield"` // percent of operations followed by (vyield)
 	Slow   int      `json:"slow"`  // routine that is held back by short sleeps (priority perturbation), -1 none
 	Procs  int      `json:"procs"` // GOMAXPROCS
+	// Cold: the body of every routine is a function of its own kind (routines with equal code share ONE function)
+	// that nobody has called before the routines start: they enter it, and compile its forms in place, at once
+	Cold bool `json:"cold"`
 }
 
 func lit(z int64) *Expr     { return &Expr{Kind: "lit", Z: z} }
@@ -156,6 +160,8 @@ func cellRead(kind string, x int, job int) string {
 		return fmt.Sprintf("(send o%d :v)", x)
 	case "hash":
 		return fmt.Sprintf("(values (gethash 'k h%d))", x)
+	case "let": // a variable of the scope that all routines of the job are started from
+		return fmt.Sprintf("v%d", x)
 	}
 	panic("cell kind " + kind)
 }
@@ -170,6 +176,8 @@ func cellWrite(kind string, x int, job int, e string) string {
 		return fmt.Sprintf("(send o%d :set-v %s)", x, e)
 	case "hash":
 		return fmt.Sprintf("(setf (gethash 'k h%d) %s)", x, e)
+	case "let":
+		return fmt.Sprintf("(setq v%d %s)", x, e)
 	}
 	panic("cell kind " + kind)
 }
@@ -272,13 +280,30 @@ func (p *Prog) Lisp(job int, after func(rid int) string) (setup []string, runs [
 			setup = append(setup, fmt.Sprintf("(send o%d :set-v %d)", x, p.Mem[x]))
 		case "hash":
 			setup = append(setup, fmt.Sprintf("(setf (gethash 'k h%d) %d)", x, p.Mem[x]))
+		case "let":
+			setup = append(setup, fmt.Sprintf("(setq v%d %d)", x, p.Mem[x]))
 		}
 		finals = append(finals, cellRead(kind, x, job))
 	}
 	rd := &renderer{p: p, job: job, after: after}
+	fns := map[string]string{} // code of a routine -> name of the function that is its body (Cold)
 	for i, r := range p.Code {
 		rd.rid = i
 		var b strings.Builder
+		if p.Cold {
+			key := GOps(r)
+			name, have := fns[key]
+			if !have {
+				name = fmt.Sprintf("c17fn-%d-%d", job, len(fns))
+				fns[key] = name
+				fmt.Fprintf(&b, "(defun %s (rid) (let ((got nil) (acc 0) (log nil))", name)
+				rd.ops(&b, r)
+				b.WriteString(" (channel-push res (list rid log))))")
+				setup = append(setup, b.String())
+			}
+			runs = append(runs, fmt.Sprintf("(run (%s %d))", name, i))
+			continue
+		}
 		b.WriteString("(run (let ((got nil) (acc 0) (log nil))")
 		rd.ops(&b, r)
 		fmt.Fprintf(&b, " (channel-push res (list %d log))))", i)
@@ -290,9 +315,7 @@ func (p *Prog) Lisp(job int, after func(rid int) string) (setup []string, runs [
 	return
 }
 
-// HasExit reports whether the program contains a return-from / go.  Such a program is rendered without
-// (vyield) / (vpause) forms: slip's forms pass an exit marker on only when it is the value of their LAST form,
-// so an inserted form after it would change the meaning.
+// HasExit reports whether the program contains a return-from / go.
 func HasExit(ops []Op) bool {
 	for _, o := range ops {
 		if o.Kind == "exit" || HasExit(o.Body) {
